@@ -541,3 +541,5 @@ def summarize(results, tier):
         "samples": samples[:8],
         "exhaustive": True,
     }
+
+RULE += ' Session 4: string defaults naming list-indexed keys and section members, with and without the referenced section.'
